@@ -117,6 +117,10 @@ PROBES = {
     'hr': '***\n\n---\n___\n',
     'xwiki': '{{macro a="b"}}\ntext\n{{/macro}}\n',
     'img': '![img](/src "t") [link](</u v> \'t\') ![r][k]\n\n[k]: /i\n',
+    # every kind of block start directly after paragraph text (which token types may interrupt a
+    # paragraph depends on the active token list -- and must not depend on an earlier renderer)
+    'interrupt': ('text\n<div>\nmore\n\ntext\n# h\n\ntext\n> q\n\ntext\n```\nc\n```\n\ntext\n- i\n\n'
+                  'text\n| a |\n|---|\n\ntext\n***\n\n> lazy\n<div>\n\n- item\n<div>\n'),
 }
 PNAMES = list(PROBES)
 
